@@ -185,8 +185,13 @@ class ClientTask:
                         t = w.tok()
                         base = (c._p_serial, c.token)
                         c.token = t
-                        c.n = c.n + 1
-                        c.log = c.log + [t]
+                        if c._p_oid in own:
+                            # second write in one transaction: one token
+                            # per committed revision
+                            c.log = c.log[:-1] + [t]
+                        else:
+                            c.n = c.n + 1
+                            c.log = c.log + [t]
                         if c._p_oid not in own:
                             written.append((c._p_oid, t, base))
                         else:
